@@ -473,6 +473,12 @@ impl<'a, 's> Gen<'a, 's> {
         if !self.prev_words.is_empty() && self.s.chance(1, 4) {
             let w = self.s.pick(&self.prev_words).clone();
             if !self.p.unique_points {
+                if self.s.chance(1, 3) {
+                    // the very same word once more, one || level further down: same table shape, every
+                    // item (commands and compadd-style commands included) on another level
+                    let first = self.top_lit();
+                    return E::Fb(vec![first, w]);
+                }
                 return self.twin(&w);
             }
             if let Some(t) = self.twin_disjoint(&w) {
